@@ -324,7 +324,7 @@ func c03Apply(a *ref.AF, o OpC03) (na *ref.AF, wantErr bool, undefined string, s
 	return na, false, undefined, sizeChange
 }
 
-func c03Call(p *packet.Packet, o OpC03) error {
+func c03Call(p *packet.Packet, o OpC03, model *ref.AF) error {
 	af, err := p.AdaptationField()
 	if err != nil {
 		return err
@@ -374,9 +374,10 @@ func c03Call(p *packet.Packet, o OpC03) error {
 		if o.Kind == "tpdOwn" {
 			cur, gerr = adaptationfield.TransportPrivateData(p)
 		} else {
-			// only the method API reads the extension; its result starts with the length byte (known finding D-AF4): skip it
+			// only the method API reads the extension. On this tree its result starts with the length byte (known
+			// finding D-AF4); a tree without that defect returns the value itself. The model knows how long the value is.
 			cur, gerr = af.AdaptationFieldExtension()
-			if gerr == nil && len(cur) >= 1 {
+			if gerr == nil && model != nil && model.Ext != nil && len(cur) == len(*model.Ext)+1 {
 				cur = cur[1:]
 			}
 		}
@@ -478,8 +479,9 @@ func c03Getters(p *packet.Packet, m *ref.Packet, tol bool, saw *bool) *hx.Failur
 			return hx.Failf("getter-splice-absent", "splice countdown absent: method err=%v func err=%v, want errors", serr, ferr)
 		}
 	} else {
-		if serr != nil || sv != int(int8(*a.Splice)) {
-			return hx.Failf("getter-splice", "SpliceCountdown() = (%d, %v), want %d", sv, serr, int(int8(*a.Splice)))
+		// splice_countdown is a signed 8-bit field: the int-returning getter may report 200 or -56 for the byte 0xC8
+		if serr != nil || (sv != int(int8(*a.Splice)) && sv != int(*a.Splice)) {
+			return hx.Failf("getter-splice", "SpliceCountdown() = (%d, %v), want %d (or %d)", sv, serr, int(int8(*a.Splice)), *a.Splice)
 		}
 		if ferr != nil || fv != *a.Splice {
 			return hx.Failf("getter-splice-func", "adaptationfield.SpliceCountdown = (%d, %v), want %d", fv, ferr, *a.Splice)
@@ -572,7 +574,7 @@ func checkC03(c CaseC03, x *hx.Ctx) *hx.Failure {
 		if !o.B && ((o.Kind == "hasTPD" && m.AF.TPD != nil && len(*m.AF.TPD) > 0) || (o.Kind == "hasExt" && m.AF.Ext != nil && len(*m.AF.Ext) > 0)) {
 			nRemoveNonEmpty++
 		}
-		err := c03Call(&p, o)
+		err := c03Call(&p, o, m.AF)
 		where := fmt.Sprintf("step %d %s after %v (af_len %d, content before %d)", i, o, hist[:i], m.AF.Len, m.AF.Content())
 		if by != packet.Packet(byBytes) {
 			return hx.Failf("bystander-packet-changed", "%s: another packet (with its own adaptation field) changed", where)
@@ -583,8 +585,9 @@ func checkC03(c CaseC03, x *hx.Ctx) *hx.Failure {
 		if err != nil && len(err.Error()) > 16 && err.Error()[:16] == "harness-observed" {
 			return hx.Failf("copyaf-mutates-source", "%s: %v", where, err)
 		}
-		if o.Kind == "copyAF" && err != nil && !wantErr && c03SourceEmpty(o) {
-			// copying an EMPTY adaptation field may also be refused, as long as nothing changes
+		if o.Kind == "copyAF" && !wantErr && c03SourceEmpty(o) && (err != nil || p == before) {
+			// copying an EMPTY adaptation field (no flags byte at all): "nothing is set afterwards" is one reading,
+			// a refusal or leaving the destination as it is are others - as long as nothing else changes
 			if p != before {
 				return hx.Failf("error-changes-packet-copyAF", "%s: copying an empty adaptation field returned error %q but changed the packet", where, err)
 			}
@@ -681,7 +684,7 @@ var propC03 = hx.Register(hx.Prop[CaseC03]{ID: "C03", Gen: genC03, Check: checkC
 func c03Rule() {
 	hx.Rec("C03").SetRule("cases: a well-formed packet with a non-empty adaptation field (af_len 1..182 next to a payload, 183 alone; af_len biased to 1,2,7,8,13,14,20,181,182; any fitting subset of optional fields) + a history of up to 60 (on average 15) setter calls (three flag setters, five presence toggles in both polarities incl. repeats, SetPCR/SetOPCR with any value < 2^33*300, SetSpliceCountdown, SetTransportPrivateData/SetAdaptationFieldExtension with lengths biased to 0, exactly-fits and one-too-many, SetAdaptationField from another generated packet or with the packet's own adaptation field; private data / extension set to a window of their own current value as the function-style getter returns it). After every step all 188 bytes are compared with the reference serialisation of the model and every getter of both APIs with the model; refused calls must leave the packet byte-identical; calls that fit must succeed. Enumerated: all toggle histories of length <= 3 from 8 af_len values x 32 initial flag subsets. Non-trivial: >= 1 size-changing success and >= 1 of {refused call, removal of a non-empty variable field, repeated toggle, fill to exactly af_len, successful copy of a whole field}.",
 		"only the non-nil-ness of errors is asserted, not which sentinel",
-		"adaptation-field-only packets have af_len 183; the source of SetAdaptationField is a well-formed packet with an adaptation field (possibly of length 0: then nothing is set afterwards, or the call is refused without effect)",
+		"adaptation-field-only packets have af_len 183; the source of SetAdaptationField is a well-formed packet with an adaptation field (possibly of length 0: then nothing is set afterwards, or the destination is left as it is, with or without an error)",
 		"a PCR/OPCR/splice field that became present without receiving a value has no defined contents (re-read from the packet)")
 }
 
